@@ -442,4 +442,126 @@ theorem good_final (base : Int) (c : Cfg) (hg : Good base c) (hd : ∀ t ∈ c.t
   refine ⟨h1, ?_⟩
   rw [h2, hp]; ring
 
+/-! ## rejections under schedules -/
+
+/-- every rejection decided on the shared timestamp was decided on the latest pass time of that moment -/
+def RejOk (base : Int) (c : Cfg) : Prop :=
+  ∀ e ∈ c.rej, e.2.2 <+: c.log ∧ latest base e.2.2 + e.2.1 - e.1 > c.maxQ
+
+theorem sched_log_grows (c : Cfg) (i : Nat) : c.log <+: (c.sched i).log := by
+  unfold Cfg.sched
+  split
+  · exact List.prefix_refl _
+  · split
+    · exact List.prefix_refl _
+    · simp only
+      split
+      · exact List.prefix_append _ _
+      · exact List.prefix_refl _
+
+theorem sched_rb (c : Cfg) (i : Nat) (t : Th) (ht : c.ths[i]? = some t) (hd : t.isDone = false) :
+    (c.sched i).rb = (c.rb || (if t.isRb then decide (2 ≤ rbCount c.ths) else decide (1 ≤ rbCount c.ths))) := by
+  unfold Cfg.sched
+  simp [ht, hd]
+
+/-- a step either leaves the rejection record alone or appends the stepping thread's rejection, decided on the value
+    of the shared timestamp it has just read -/
+theorem sched_rej (c : Cfg) (i : Nat) :
+    (c.sched i).rej = c.rej ∨
+    ∃ t, c.ths[i]? = some t ∧ t.isDone = false ∧ t.isRb = false ∧
+      (c.sched i).rej = c.rej ++ [(t.now, t.iv, c.log)] ∧ c.last + t.iv - t.now > c.maxQ := by
+  unfold Cfg.sched
+  split
+  · left; rfl
+  · rename_i t ht
+    split
+    · left; rfl
+    · rename_i hnd
+      obtain ⟨now, iv, pc⟩ := t
+      cases pc with
+      | load => left; by_cases h1 : c.last + iv ≤ now <;> simp [stepTh, h1]
+      | cas l => left; by_cases h1 : c.last = l <;> simp [stepTh, h1]
+      | reload =>
+        by_cases h1 : c.last + iv - now > c.maxQ
+        · right; exact ⟨⟨now, iv, .reload⟩, ht, by simp [Th.isDone], by simp [Th.isRb], by simp [stepTh, h1], h1⟩
+        · left; simp [stepTh, h1]
+      | add =>
+        by_cases h1 : c.last + iv - now > c.maxQ
+        · right; exact ⟨⟨now, iv, .add⟩, ht, by simp [Th.isDone], by simp [Th.isRb], by simp [stepTh, h1], h1⟩
+        · left; by_cases h2 : c.last + iv - now > 0 <;> simp [stepTh, h1, h2]
+      | rollback => left; simp [stepTh]
+      | done r => simp [Th.isDone] at hnd
+
+theorem rejOk_sched (base : Int) (c : Cfg) (i : Nat) (hg : Good base c) (hr : RejOk base c)
+    (hrb : (c.sched i).rb = false) : RejOk base (c.sched i) := by
+  unfold RejOk at hr ⊢
+  rw [sched_maxQ]
+  have hgrow := sched_log_grows c i
+  have hold : ∀ e ∈ c.rej, e.2.2 <+: (c.sched i).log ∧ latest base e.2.2 + e.2.1 - e.1 > c.maxQ :=
+    fun e he => ⟨(hr e he).1.trans hgrow, (hr e he).2⟩
+  rcases sched_rej c i with h | ⟨t, ht, hd, hnr, h, hgt⟩
+  · rw [h]; exact hold
+  · rw [h]
+    intro e he
+    rcases List.mem_append.mp he with he | he
+    · exact hold e he
+    · rw [List.mem_singleton] at he
+      subst he
+      refine ⟨hgrow, ?_⟩
+      rw [sched_rb c i t ht hd, hnr] at hrb
+      simp only [Bool.false_eq_true, ↓reduceIte, Bool.or_eq_false_iff, decide_eq_false_iff_not] at hrb
+      have h0 : rbCount c.ths = 0 := by omega
+      have hp := pend_zero_of_rbCount _ h0
+      simp only
+      rw [hg.2, hp]; omega
+
+theorem good_rejOk_run (base : Int) (c : Cfg) (s : List Nat) (hok : AllOk c) (hg : Good base c) (hr : RejOk base c)
+    (hrb : (c.run s).rb = false) (hst : (c.run s).stale = false) : Good base (c.run s) ∧ RejOk base (c.run s) := by
+  induction s generalizing c with
+  | nil => exact ⟨hg, hr⟩
+  | cons i r ih =>
+    have h1 := (run_flags_mono (c.sched i) r).1 hrb
+    have h2 := (run_flags_mono (c.sched i) r).2 hst
+    exact ih _ (allOk_sched c i hok) (good_sched base c i hok hg h1 h2) (rejOk_sched base c i hg hr h1) hrb hst
+
+/-- the schedule and the five drain rounds, outside the classified regions -/
+theorem clean_final (maxQ last : Int) (ws : List (Int × Req)) (s : List Nat)
+    (hrb : ((Cfg.start maxQ last ws).runSched s).rb = false)
+    (hst : ((Cfg.start maxQ last ws).runSched s).stale = false) :
+    Good last ((Cfg.start maxQ last ws).runSched s) ∧ RejOk last ((Cfg.start maxQ last ws).runSched s) := by
+  have h0 : AllOk (Cfg.start maxQ last ws) := by
+    intro t ht
+    simp only [Cfg.start, List.mem_map] at ht
+    obtain ⟨e, _, rfl⟩ := ht
+    exact thOk_init _ _ _
+  have hp : pend (Cfg.start maxQ last ws).ths = 0 := by
+    apply pend_zero_of_rbCount
+    simp only [rbCount, Cfg.start, List.length_eq_zero_iff, List.filter_eq_nil_iff, List.mem_map]
+    rintro t ⟨e, _, rfl⟩
+    obtain ⟨now, q⟩ := e
+    cases q <;> simp [Th.init, Th.isRb]
+  have hg : Good last (Cfg.start maxQ last ws) := by
+    refine ⟨by simp [Cfg.start, Spaced], ?_⟩
+    rw [hp]; simp [Cfg.start, latest]
+  have hr : RejOk last (Cfg.start maxQ last ws) := by
+    intro e he; simp [Cfg.start] at he
+  unfold Cfg.runSched Cfg.round at hrb hst ⊢
+  have step : ∀ (c : Cfg) (s : List Nat), AllOk c ∧ Good last c ∧ RejOk last c → (c.run s).rb = false → (c.run s).stale = false →
+      AllOk (c.run s) ∧ Good last (c.run s) ∧ RejOk last (c.run s) :=
+    fun c s h h1 h2 => ⟨allOk_run c s h.1, good_rejOk_run last c s h.1 h.2.1 h.2.2 h1 h2⟩
+  have m := fun (c : Cfg) (s : List Nat) => run_flags_mono c s
+  have r5rb := hrb; have r5st := hst
+  have r4rb := (m _ _).1 r5rb; have r4st := (m _ _).2 r5st
+  have r3rb := (m _ _).1 r4rb; have r3st := (m _ _).2 r4st
+  have r2rb := (m _ _).1 r3rb; have r2st := (m _ _).2 r3st
+  have r1rb := (m _ _).1 r2rb; have r1st := (m _ _).2 r2st
+  have r0rb := (m _ _).1 r1rb; have r0st := (m _ _).2 r1st
+  have g0 := step _ s ⟨h0, hg, hr⟩ r0rb r0st
+  have g1 := step _ _ g0 r1rb r1st
+  have g2 := step _ _ g1 r2rb r2st
+  have g3 := step _ _ g2 r3rb r3st
+  have g4 := step _ _ g3 r4rb r4st
+  have g5 := step _ _ g4 r5rb r5st
+  exact g5.2
+
 end Sentinel.C10
